@@ -387,8 +387,14 @@ class P(Prop):
         return False, {"kind": "no-failing-input-found", "broken": "C13_enum_numbering", "why": log[-800:]}, 1, 0, info
 
     # ---- cases --------------------------------------------------------------------------------------
+    MSS = ["electric_propulsion_system.mss", "hybrid_propulsion_system.mss", "mechanical_propulsion_with_electric_system.mss",
+           "system_proto.mss", "system_proto_with_coges.mss"]
+
     def gen(self, rng, tier, override=None):
         out = []
+        if not override:
+            # the descriptions packaged with MachSysS (those that parse) as a fixed corpus
+            out += [{"kind": "file", "stream": "mss", "file": f, "plant": {"comps": [], "breakers": []}, "mech": []} for f in self.MSS]
         n = self.n_cases(tier, override)
         for i in range(n):
             kind = rng.choice(["electric", "electric", "mech", "hybrid"])
@@ -653,9 +659,45 @@ class P(Prop):
             return None
         return k
 
+    def run_mss(self, case):
+        """a packaged description: decode, compare with the model's decoding; encode and decode again: stable"""
+        import MachSysS.system_structure_pb2 as proto
+        from MachSysS.convert_to_feems import convert_proto_propulsion_system_to_feems
+        E = enum_nums()
+        path = core.REPO / "machinery-system-structure" / "tests" / case["file"]
+        if not path.exists():
+            return {"not_built": "file missing"}
+        msg = proto.MachinerySystem()
+        msg.ParseFromString(path.read_bytes())
+        uids = set()
+        for w in list(msg.electric_system.switchboards) + list(msg.mechanical_system.shaft_lines):
+            for sub in w.subsystems:
+                uids.add(sub.uid)
+                for f, _ in sub.ListFields():
+                    if hasattr(getattr(sub, f.name), "uid"):
+                        uids.add(getattr(sub, f.name).uid)
+        pterm = p_system(msg)
+        out = {}
+        with np.errstate(all="ignore"):
+            s1 = convert_proto_propulsion_system_to_feems(msg)
+            d1 = self.dump(s1)
+            try:
+                f1 = f_system(self.mark_fresh(copy.deepcopy(d1), uids), E)
+                out["dec_term"] = f"(let p := {pterm} in negb (in_model p) || check_dec {st(FRESH)} p {f1})"
+            except (ValueError, KeyError):
+                out["dec_term"] = f"negb (in_model {pterm})"
+            m1 = self.to_proto(s1)
+            s2 = convert_proto_propulsion_system_to_feems(self.parse(m1))
+            m2 = self.to_proto(s2)
+            out["second_pass_equal"] = self.canon_msg(m1) == self.canon_msg(m2)
+            out["attr_diff"] = [list(map(str, x)) for x in sysdump.diff(self.dump(s1), self.dump(s2))[:3]]
+        return out
+
     def run(self, case):
         from google.protobuf.message import DecodeError  # noqa: F401
         from MachSysS.convert_to_feems import convert_proto_propulsion_system_to_feems
+        if case["stream"] == "mss":
+            return self.run_mss(case)
         E = enum_nums()
         out = {}
         with np.errstate(all="ignore"):
@@ -746,6 +788,12 @@ class P(Prop):
     def oracle(self, case, obs):
         if "not_built" in obs or case["stream"] == "malformed":
             return None
+        if case["stream"] == "mss":
+            if obs.get("attr_diff"):
+                return f"{case['file']}: the system decoded from the description changes in a second round trip: {obs['attr_diff'][0]}"
+            if not obs.get("second_pass_equal", True):
+                return f"{case['file']}: description -> system -> description is not stable after the first pass"
+            return None
         if "encode_raised" in obs:
             return "the system cannot be converted to its protobuf description: " + obs["encode_raised"]
         if "decode_raised" in obs:
@@ -802,10 +850,14 @@ class P(Prop):
                   "serial_system_with_more_stages_than_fields": pred_serial.__func__}
 
     def nontrivial(self, case, obs):
+        if case["stream"] == "mss":
+            return True
         comps = list(case["plant"]["comps"]) + list(case.get("mech") or [])
         return len(comps) >= 3 and len({c["cls"] for c in comps}) >= 2
 
     def tags(self, case, obs):
+        if case["stream"] == "mss":
+            return ["stream=packaged-description", "file:" + case["file"]]
         t = ["plant=" + case["kind"], "stream=" + case["stream"], "uids=" + ("given(fixed per name)" if case.get("fixed_uids") else "generated")]
         for c in list(case["plant"]["comps"]) + list(case.get("mech") or []):
             t.append("cls:" + c["cls"])
@@ -826,6 +878,8 @@ class P(Prop):
         return sorted(set(t))
 
     def shrink(self, case):
+        if case["stream"] == "mss":
+            return
         for i in range(len(case["plant"]["comps"])):
             c = copy.deepcopy(case)
             d = c["plant"]["comps"].pop(i)
